@@ -1,10 +1,15 @@
 """Implementation adapter for C01: same line protocol as ocaml/c01_driver.ml, answers from the real library
-through the public API only (Transaction, add_input, add_output, sign, raw, parse, signature, signature_hash)."""
+through the public API only (Transaction, Input, Output, add_input, add_output, sign, sign_and_update, verify, raw, parse,
+signature, signature_hash, set_locktime_*, shuffle_inputs and the public attributes of Transaction / Input / Output).
+
+`sess <mode> <tx> <op> ...` runs a SESSION on one Transaction object: it is built through <mode>, then every <op> is
+applied to the same object, in order; each op answers with one token (see run_session)."""
 import sys, os, logging, hashlib
 sys.path.insert(0, os.path.dirname(os.path.abspath(__file__)))
 from common_impl import hx, unhx, serve
 logging.disable(logging.CRITICAL)
-from bitcoinlib.transactions import Transaction
+import bitcoinlib.transactions as _T
+from bitcoinlib.transactions import Transaction, Input, Output
 from bitcoinlib.keys import Key
 from bitcoinlib.scripts import Script
 
@@ -42,15 +47,17 @@ def parse_tx(tok):
     return int(ver), int(lock), sw == '1', net, li, lo
 
 
-def kind_args(i, alt):
+def kind_args(i, alt, priv=False):
     k, keys, m = i['kind'], i['keys'], i['m']
+    if priv:          # Key objects holding the private keys, so that the library can (re-)sign on its own
+        keys = [PRIV[x] for x in keys]
     if k == 'p2pkh':
         return dict(keys=keys[0], script_type='sig_pubkey', witness_type='legacy')
     if k == 'p2pk':
         return dict(keys=keys[0], script_type='signature', witness_type='legacy')
     if k == 'multisig':
         # bare multisig: update_scripts has no branch for it; the caller passes the locking script (strict=False)
-        ls = Script(script_types=['multisig'], keys=[bytes.fromhex(x) for x in keys], sigs_required=m).serialize()
+        ls = Script(script_types=['multisig'], keys=[bytes.fromhex(x) for x in i['keys']], sigs_required=m).serialize()
         return dict(keys=keys, script_type='multisig', sigs_required=m, witness_type='legacy', locking_script=ls,
                     strict=False)
     if k == 'p2sh_multisig':
@@ -105,6 +112,205 @@ def build(mode, tok):
     raise ValueError(mode)
 
 
+
+# ------------------------------------------------------------------------------------------------ sessions
+SW_HTS = (1, 2, 3, 0x81, 0x82, 0x83)
+LEGACY_KINDS = ('p2pkh', 'p2pk', 'multisig', 'p2sh_multisig')
+PRIV_MODES = ('apik', 'apib', 'apikr', 'ctor')
+
+
+def parse_in(s):
+    prev, vout, seq, idx, kind, value, m, keys = s.split(',')
+    return dict(prev=unhx(prev), vout=int(vout), seq=int(seq), idx=int(idx), kind=kind, value=int(value), m=int(m),
+                keys=keys.split('/'))
+
+
+def build_session(mode, tok):
+    """-> (Transaction, [input descriptions by position])"""
+    ver, lock, sw, net, li, lo = parse_tx(tok)
+    wt = 'segwit' if sw else 'legacy'
+    if mode in ('api', 'apik', 'apib', 'apikr', 'parse'):
+        kw = dict(locktime=lock, witness_type=wt, network=net)
+        if ver:
+            kw['version'] = ver          # 0 in the token = argument left out
+        if mode == 'apikr':
+            kw['replace_by_fee'] = True
+        t = Transaction(**kw)
+        for i in li:
+            if mode == 'apib':    # the bytes spellings of the arguments: txid as bytes, output_n big-endian, sequence little-endian
+                t.add_input(prev_txid=i['prev'][::-1], output_n=i['vout'].to_bytes(4, 'big'),
+                            sequence=i['seq'].to_bytes(4, 'little'), index_n=i['idx'], value=i['value'],
+                            **kind_args(i, False, priv=True))
+            else:
+                t.add_input(prev_txid=i['prev'][::-1].hex(), output_n=i['vout'], sequence=i['seq'], index_n=i['idx'],
+                            value=i['value'], **kind_args(i, False, priv=(mode != 'api')))
+        for v, sc in lo:
+            t.add_output(v, lock_script=sc)
+        if mode == 'parse':
+            t.sign()
+            t2 = Transaction.parse(t.raw(), network=net)
+            for p, i in enumerate(li):
+                t2.inputs[p].value = i['value']
+                if i['kind'] == 'p2pk':
+                    t2.inputs[p].keys = [Key(i['keys'][0])]
+                    t2.update_inputs(p)
+            t = t2
+        return t, li
+    if mode == 'ctor':
+        ins = [Input(prev_txid=i['prev'][::-1].hex(), output_n=i['vout'], sequence=i['seq'], index_n=p, value=i['value'],
+                     network=net, **kind_args(i, False, priv=True)) for p, i in enumerate(li)]
+        outs = [Output(v, lock_script=sc, network=net) for v, sc in lo]
+        kw = dict(locktime=lock, witness_type=wt, network=net, fee=0)
+        if ver:
+            kw['version'] = ver.to_bytes(4, 'big')      # the bytes spelling of the argument (what parse passes)
+        return Transaction(ins, outs, **kw), li
+    raise ValueError(mode)
+
+
+class _Shuffle:
+    """stands in for the module `random` inside bitcoinlib.transactions while shuffle_inputs / shuffle run: the
+    outcomes of the successive random.shuffle calls are given"""
+    def __init__(self, *perms):
+        self.perms = list(perms)
+
+    def shuffle(self, lst):
+        perm = self.perms.pop(0)
+        if sorted(perm) != list(range(len(lst))):
+            raise IndexError('perm')
+        lst[:] = [lst[k] for k in perm]
+
+
+def sign_keys(t, li, replace):
+    for p, i in enumerate(li):
+        n = 1 if i['kind'] in ('p2pkh', 'p2pk', 'p2wpkh', 'p2sh_p2wpkh') else i['m']
+        t.sign(keys=[PRIV[x] for x in i['keys'][:n]], index_n=p, replace_signatures=replace)
+
+
+def observe_digests(t, li):
+    out = []
+    for p, i in enumerate(li):
+        leg = i['kind'] in LEGACY_KINDS
+        wt = 'legacy' if leg else ('segwit' if i['kind'] in ('p2wpkh', 'p2wsh') else 'p2sh-segwit')
+        for ht in ((1,) if leg else SW_HTS):
+            try:
+                pre = t.signature(p, ht, wt)
+                dig = t.signature_hash(p, ht, wt)
+                out.append('%d.%d.%s.%s' % (p, ht, hx(pre), hx(dig)))
+            except Exception:
+                out.append('%d.%d.ERR' % (p, ht))
+    return ','.join(out) or '-'
+
+
+def session_op(t, li, mode, op):
+    a = op.split('~')
+    k = a[0]
+    if k == 'dig':
+        try:
+            raw = hx(t.raw())
+        except Exception:
+            return 'D=ERR'
+        return 'D=' + raw + '#' + observe_digests(t, li)
+    if k == 'raw':
+        try:
+            return 'R=%s#%d#%d' % (hx(t.raw()), int.from_bytes(t.version, 'big'), t.version_int)
+        except Exception:
+            return 'R=ERR'
+    if k == 'vfy':
+        try:
+            ok = t.verify()
+            return 'V=%s#%s' % (hx(t.raw()), '1' if ok else '0')
+        except Exception as e:
+            return 'V=ERR'
+    try:
+        if k == 'sign':
+            t.sign()
+        elif k == 'rsign':
+            t.sign(replace_signatures=True)
+        elif k == 'signk':
+            sign_keys(t, li, False)
+        elif k == 'rsignk':
+            sign_keys(t, li, True)
+        elif k == 'sau':
+            t.sign_and_update()
+        elif k == 'saui':
+            t.sign_and_update(index_n=int(a[1]))
+        elif k == 'seq':
+            t.inputs[int(a[1])].sequence = int(a[2])
+        elif k == 'op':
+            inp, vout = t.inputs[int(a[1])], int(a[3])
+            vb = vout.to_bytes(4, 'big')
+            inp.prev_txid, inp.output_n, inp.output_n_int = unhx(a[2])[::-1], vb, vout
+        elif k == 'ival':
+            t.inputs[int(a[1])].value = int(a[2])
+        elif k == 'lt':
+            t.locktime = int(a[1])
+        elif k == 'ver':
+            v = int(a[1])
+            vb = v.to_bytes(4, 'big')
+            t.version, t.version_int = vb, v
+        elif k == 'vint':
+            t.version_int = int(a[1])
+        elif k == 'oval':
+            t.outputs[int(a[1])].value = int(a[2])
+        elif k == 'oscr':
+            t.outputs[int(a[1])].lock_script = unhx(a[2])
+        elif k == 'addin':
+            i = parse_in(a[1])
+            t.add_input(prev_txid=i['prev'][::-1].hex(), output_n=i['vout'], sequence=i['seq'], index_n=i['idx'],
+                        value=i['value'], **kind_args(i, False, priv=(mode in PRIV_MODES)))
+            li.append(i)
+        elif k == 'addout':
+            t.add_output(int(a[1]), lock_script=unhx(a[2]))
+        elif k == 'perm':
+            perm = [int(x) for x in a[1].split('.')]
+            saved = _T.random
+            _T.random = _Shuffle(perm)
+            try:
+                t.shuffle_inputs()
+            finally:
+                _T.random = saved
+            li[:] = [li[j] for j in perm]
+        elif k == 'merge':
+            i = parse_in(a[1])
+            pi, po = [int(x) for x in a[4].split('.')], [int(x) for x in a[5].split('.')]
+            if sorted(pi) != list(range(len(t.inputs) + 1)) or sorted(po) != list(range(len(t.outputs) + 1)):
+                raise IndexError('perm')
+            other = Transaction(witness_type=t.witness_type, network=t.network.name)
+            other.add_input(prev_txid=i['prev'][::-1].hex(), output_n=i['vout'], sequence=i['seq'], index_n=0,
+                            value=i['value'], **kind_args(i, False, priv=(mode in PRIV_MODES)))
+            other.add_output(int(a[2]), lock_script=unhx(a[3]))
+            saved = _T.random
+            _T.random = _Shuffle(pi, po)
+            try:
+                li.append(i)
+                li[:] = [li[j] for j in pi]
+                t.merge_transaction(other)
+            finally:
+                _T.random = saved
+        elif k == 'slrb':
+            t.set_locktime_relative_blocks(int(a[1]), int(a[2]), int(a[3]))
+        elif k == 'slrt':
+            t.set_locktime_relative_time(int(a[1]), int(a[2]), int(a[3]))
+        elif k == 'slb':
+            t.set_locktime_blocks(int(a[1]))
+        elif k == 'slt':
+            t.set_locktime_time(int(a[1]))
+        else:
+            return 'BADOP'
+    except Exception as e:
+        return 'E:' + type(e).__name__
+    return 'ok'
+
+
+def run_session(mode, tok, ops):
+    try:
+        t, li = build_session(mode, tok)
+        li = list(li)
+    except Exception as e:
+        return 'ERR build %s' % type(e).__name__
+    return ' '.join(session_op(t, li, mode, op) for op in ops)
+
+
 CACHE = {}
 WT = {'leg': 'legacy', 'sw': 'segwit', 'p2sh': 'p2sh-segwit'}
 
@@ -138,6 +344,8 @@ def dispatch(t):
         if dig.hex() != dig_hex:
             return 'CRASH as_hex differs'
         return hx(pre) + ' ' + hx(dig)
+    if k == 'sess':
+        return run_session(t[1], t[2], t[3:])
     if k == 'signed':
         try:
             tx, li = build_api(t[1])
